@@ -39,11 +39,12 @@ def store(min_size, max_size, disabled):
                                           warn_threshold=10**9, local_cache_size=4, compression_enabled=False)
     return st
 
-def route(s: str, min_size: int, max_size: int, disabled: bool, disable_cache: bool) -> bool:
+def route(n: int, min_size: int, max_size: int, disabled: bool, disable_cache: bool) -> bool:
     """
-    pre: len(s) <= 3 and min_size >= 0 and max_size >= 0
+    pre: 0 <= n <= 6 and min_size >= 0 and max_size >= 0
     post: _
     """
+    s = "x" * pick(n, 0, 6)          # routing depends on the length only; thresholds stay unbounded symbolic ints
     st = store(min_size, max_size, disabled)
     out = st.serialize(s, disable_cache=disable_cache)
     n = len(s)
@@ -56,20 +57,21 @@ def route(s: str, min_size: int, max_size: int, disabled: bool, disable_cache: b
     st._deserialized_cache.clear()
     return st.resolve(out) == s and st.serialize(s) == out   # content-addressed: same content, same reference
 
-def route_twin(s: str, min_size: int, max_size: int) -> bool:
+def route_twin(n: int, min_size: int, max_size: int) -> bool:
     """
-    pre: len(s) <= 3 and min_size >= 0 and max_size >= 0
+    pre: 0 <= n <= 6 and min_size >= 0 and max_size >= 0
     post: _
     """
-    route(s, min_size, max_size, False, False)
+    route(n, min_size, max_size, False, False)
     return False
 
-def route_canary(s: str, min_size: int) -> bool:
+def route_canary(n: int, min_size: int) -> bool:
     """
-    pre: len(s) <= 3 and min_size >= 0
+    pre: 0 <= n <= 6 and min_size >= 0
     post: _
     """
     # wrong spec on purpose (strict >): the boundary len == min_size must refute it
+    s = "x" * pick(n, 0, 6)
     st = store(min_size, 0, False)
     out = st.serialize(s)
     return st.is_reference(out) == (len(s) > min_size)
@@ -357,7 +359,7 @@ def run(ctx: Ctx) -> None:
     ctx.ch_batch("c15hunt", HUNT, [Cond("args_id_injective", "hunt", budget), Cond("args_id_order", "hunt", budget)])
     ctx.functions_encoded += ["BaseClientDataStore.serialize/_maybe_store/resolve/_resolve_reference/_cache_deserialized/purge", "Mem/SQLite client data store _store/_retrieve/_purge",
                               "TaskId.key/from_key", "CallId.key/from_key", "Arguments.from_call", "Call.call_id/args_id", "compute_args_id (hunt only)"]
-    ctx.bounds = {"routing": "content string len <= 3 (any Unicode), thresholds unbounded non-negative ints, both flags",
+    ctx.bounds = {"routing": "content length 0..6, thresholds unbounded non-negative symbolic ints (real _maybe_store traced), both flags",
                   "lru": "3 ops (thorough 4; plus 2 free ops after [serialize, foreign purge]) over 11 letters (serialize / resolve / purge / purge of the shared backend by another process / mutate-the-caller's-object over 3 contents), cache size 1..2 (+ size 0 separately), both stores, reader without local cache",
                   "ids": "module/function/args-id strings of length <= 3 / <= 2",
                   "spellings": "4 signatures (defaults, keyword-only, None default), positional prefix 0..4, every subset of omitted defaults",
